@@ -235,9 +235,12 @@ def minimise(family, case, choices, sig, seed, budget=90.0, max_runs=250):
     # 3. choice stream: zero out blocks
     n = len(choices)
     size = max(8, n // 2)
-    while size >= 8 and runs[0] < max_runs:
+    def spent():
+        return runs[0] >= max_runs or time.perf_counter() - t0 > budget
+
+    while size >= 8 and not spent():
         pos = 0
-        while pos < n:
+        while pos < n and not spent():      # (building a candidate of a multi-million choice stream is not free)
             if any(choices[pos:pos + size]):
                 cand = choices[:pos] + [0] * min(size, n - pos) + choices[pos + size:]
                 r = test(case, cand)
